@@ -193,10 +193,13 @@ def h2f_rows(ctx: Ctx):
         FQ = toy.field_classes(p, 1, (0,), "opt")
         FQ2 = toy.field_classes(p, 2, (1, 0), "opt") if p % 4 == 3 else toy.field_classes(p, 2, (-3 % p, 0), "opt")
         m.field_modulus, m.FQ, m.FQ2 = p, FQ, FQ2
-        for count in range(1, 9):
-            for mdeg in (1, 2):
-                for hk in ("toy", "sha256", "sha512"):
-                    msg, dst = rng.randbytes(rng.randrange(0, 40)), rng.randbytes(rng.randrange(0, 30))
+        # (count, degree, hash, tag length or None = short random tag): all counts, then the tag-length boundary
+        plan = [(count, mdeg, hk, None) for count in range(1, 9) for mdeg in (1, 2) for hk in ("toy", "sha256", "sha512")]
+        plan += [(2, mdeg, hk, dl) for mdeg in (1, 2) for hk in ("toy", "sha256") for dl in (0, 254, 255, 256, 300)]
+        for (count, mdeg, hk, dl) in plan:
+            for _once in (0,):
+                for _once2 in (0,):
+                    msg, dst = rng.randbytes(rng.randrange(0, 40)), rng.randbytes(rng.randrange(0, 30) if dl is None else dl)
                     if hk == "toy":
                         hf = toy_hash_factory(2, 4)
                         Hd = {"kind": "toy", "b": 2, "s": 4}
@@ -321,17 +324,21 @@ def keygen_rows(ctx: Ctx):
                     if kind == "real":
                         rec.g = []
                         salt_fn.g = []
-                    raised, sk = _call(lambda: S.KeyGen(ikm, info) if t % 2 else (S.KeyGen(ikm) if not info else S.KeyGen(ikm, info)))
+                    # one case in three hands over mutable buffers (the SAME objects in both calls)
+                    ikm_a, info_a = (bytearray(ikm), bytearray(info)) if t % 3 == 0 else (ikm, info)
+                    raised, sk = _call(lambda: S.KeyGen(ikm_a, info_a) if (t % 2 or t % 3 == 0) else
+                                       (S.KeyGen(ikm_a) if not info else S.KeyGen(ikm_a, info_a)))
                     if kind == "real":
                         M = {"kind": "graph", "g": list(rec.g)}
                         Sd = {"kind": "graph", "g": list(salt_fn.g)}
                         tries = len(salt_fn.g)
                     else:
                         M, Sd, tries = {"kind": "toy"}, {"kind": "toy"}, 0
-                    raised2, sk2 = _call(lambda: S.KeyGen(ikm, info))
+                    raised2, sk2 = _call(lambda: S.KeyGen(ikm_a, info_a))
+                    same = (not raised2 and sk2 == sk and bytes(ikm_a) == ikm and bytes(info_a) == info)
                     rows.append({"op": "kg", "M": M, "S": Sd, "ikm": list(ikm), "info": list(info), "ord": order,
                                  "r": sk if (not raised and isinstance(sk, int)) else "EXC:raised",
-                                 "again": 1 if (not raised2 and sk2 == sk) else 0, "tries": tries})
+                                 "again": 1 if same else 0, "tries": tries})
     return rows
 
 
